@@ -7,6 +7,16 @@ from props.c02 import expected as q_expected
 from props.c06 import obs_block
 
 
+def latest_ends(hist, directed):
+    """end of the latest run of every pair, by the documented merge rule (steers the mutation probes only)"""
+    from props.base import SpanTracker, norm_key
+    tr = SpanTracker(directed, True)
+    for op in hist:
+        if op[0] == 'add' and op[4] is not None and tr.expected_outcome(op[2], op[3], op[4], op[5]) == 'Done':
+            tr.apply(op[2], op[3], op[4], op[5])
+    return {k: max(s) for k, s in tr.pres.items() if s}
+
+
 class C16(PropBase):
     id = 'C16'
     obs = {'todir', 'toundir', 'nodes', 'meta', 'has', 'ids', 'stream', 'ips', 'inter', 'nnodes', 'streamchk', 'add', 'nbrs', 'deg',
@@ -61,6 +71,13 @@ class C16(PropBase):
             prog += query_probes(r, ns, ts[::3] + [None], not d, light=True)
             for n in ns[:2]:
                 prog.append(('poke', r, n))
+            # mutate the RESULT's interactions too: extend the latest run of every pair (both orientations); shared
+            # interval objects between source and result would make the source change
+            for (k, end_) in latest_ends(hist, d).items():
+                prog.append(('add', r, k[0], k[1], end_, end_ + 3))
+                prog.append(('add', r, k[1], k[0], end_ + 1, end_ + 5))
+        # ... and the SOURCE's: the results must not follow (re-observed below only for the source; the results were
+        # fully observed right after their construction)
         prog += obs_block(0, ns, ts, d)
         return prog
 
